@@ -172,6 +172,12 @@ impl Searcher {
         };
 
         for depth in 0..max_depth {
+            // The workers only poll the token every so many nodes, which small or already
+            // solved trees never reach: without this check such a search could not be stopped
+            if depth > 0 && token.is_cancelled() {
+                break;
+            }
+
             // Don't bother doing multiple threads if we're only searching a few moves
             // as the OS overhead will likely outweigh the benefits of parallelism
             let thread_count = max_thread_count.unwrap_or_else(|| {
